@@ -1071,3 +1071,179 @@ def impl_c07(case, scratch):
                 "env": len(ctx.lua_env_stack), "warm": warm}
     finally:
         close_ctx(ctx)
+
+
+# ---------------------------------------------------------------- C06
+def impl_c06_probes(case, scratch):
+    import c06_probes
+    ctx = new_ctx(scratch)
+    try:
+        ctx.add_page("Module:ustring:ustring", 828, USTRING_STUB, model="Scribunto")
+        ctx.add_page("Module:echo", 828, ECHO_MODULE, model="Scribunto")
+        names = case.get("names") or sorted(c06_probes.PROBES)
+        for n in names:
+            ctx.add_page("Module:probe " + n, 828,
+                         c06_probes.HELP + "local e = {}\nfunction e.main(frame)\n" + c06_probes.PROBES[n] + "\nend\nreturn e", model="Scribunto")
+        ctx.db_conn.commit()
+        secret = os.path.join(scratch, "secret_%d.txt" % os.getpid())
+        open(secret, "w").write("TOPSECRET")
+        target = os.path.join(scratch, "written_%d.txt" % os.getpid())
+        touched = os.path.join(scratch, "touched_%d" % os.getpid())
+        outs = {}
+        for n in names:
+            arg = {"confirm-file-read": secret, "confirm-file-write": target, "confirm-command": touched}.get(n, "x")
+            ctx.start_page("Tt")
+            try:
+                outs[n] = ctx.expand("{{#invoke:probe %s|main|%s}}" % (n, arg), timeout=5)[:200]
+            except BaseException as e:  # noqa
+                outs[n] = "RAISED:" + type(e).__name__
+                ctx.expand_stack = ["Tt"]
+        effects = {"file-written": os.path.exists(target), "command-ran": os.path.exists(touched),
+                   "db-injected": ctx.get_page("Injected page", 0) is not None if True else False}
+        ctx.get_page.cache_clear()
+        effects["db-injected"] = any(p.title == "Injected page" for p in ctx.get_all_pages([0]))
+        return {"outcome": "ok", "outs": outs, "effects": effects}
+    finally:
+        close_ctx(ctx)
+
+
+# ---------------------------------------------------------------- C06 graph
+LUA_WALKER = r"""
+function(roots, py_probe)
+  -- host-side: full debug library, real _G
+  local ids, n = {}, 0
+  local nodes, edges = {}, {}
+  local G = _G
+  local known = {}
+  local function note(obj, name) if (type(obj) == 'table' or type(obj) == 'function' or type(obj) == 'userdata') and known[obj] == nil then known[obj] = name end end
+  note(G, '_G')
+  for k, v in pairs(G) do
+    if type(k) == 'string' then
+      note(v, k)
+      if type(v) == 'table' and v ~= G then for k2, v2 in pairs(v) do if type(k2) == 'string' then note(v2, k .. '.' .. k2) end end end
+    end
+  end
+  for k, v in pairs(package.loaded) do if type(k) == 'string' then note(v, 'package.loaded.' .. k)
+    if type(v) == 'table' and v ~= G then for k2, v2 in pairs(v) do if type(k2) == 'string' then note(v2, k .. '.' .. k2) end end end end end
+  local queue = {}
+  local function id_of(obj)
+    local t = type(obj)
+    if t ~= 'table' and t ~= 'function' and t ~= 'userdata' and t ~= 'thread' then return nil end
+    if ids[obj] == nil then
+      n = n + 1
+      ids[obj] = n
+      local what = t
+      if t == 'function' then local info = debug.getinfo(obj, 'S') what = (info.what == 'C') and 'cfunction' or 'lfunction' end
+      nodes[n] = {n, what, known[obj] or ''}
+      queue[#queue + 1] = obj
+    end
+    return ids[obj]
+  end
+  local function edge(src, kind, key, dst) local d = id_of(dst) if d then edges[#edges + 1] = {ids[src], kind, tostring(key), d} end end
+  for i, r in ipairs(roots) do id_of(r) end
+  local qi = 1
+  while qi <= #queue do
+    local obj = queue[qi]; qi = qi + 1
+    local t = type(obj)
+    if t == 'table' then
+      for k, v in next, obj do edge(obj, 'field', k, v) edge(obj, 'field', 'key:' .. tostring(k), k) end
+      local mt = debug.getmetatable(obj)
+      if mt ~= nil then
+        -- what getmetatable() in the sandbox returns
+        if rawget(mt, '__metatable') ~= nil then edge(obj, 'metatable', '__metatable', rawget(mt, '__metatable')) else edge(obj, 'metatable', '', mt) end
+      end
+    elseif t == 'function' then
+      local i = 1
+      while true do local name, v = debug.getupvalue(obj, i) if name == nil then break end edge(obj, 'upvalue', name, v) i = i + 1 end
+      local ok, env = pcall(debug.getfenv, obj)
+      if ok and env ~= nil then edge(obj, 'fenv', '', env) end
+    elseif t == 'userdata' then
+      local mt = debug.getmetatable(obj)
+      local names = py_probe(obj)
+      if names ~= nil then
+        for _, name in python.iter(names) do
+          local ok, v = pcall(function(o, k) return o[k] end, obj, name)
+          if ok then edge(obj, 'pyattr', name, v) end
+        end
+      end
+    end
+  end
+  -- the string metatable is reachable from any string value
+  local smt = debug.getmetatable('')
+  return nodes, edges, (smt and id_of(smt)) or 0, ids
+end
+"""
+
+
+def impl_c06_graph(case, scratch):
+    from collections import deque
+    ctx = new_ctx(scratch)
+    try:
+        ctx.add_page("Module:ustring:ustring", 828, USTRING_STUB, model="Scribunto")
+        ctx.add_page("Module:echo", 828, ECHO_MODULE, model="Scribunto")
+        ctx.add_page("Template:w1", 10, "{{#invoke:echo|parent}}")
+        ctx.db_conn.commit()
+        seen_env, seen_frame = [], []
+
+        class Rec(deque):
+            def __init__(self, sink):
+                super().__init__()
+                self.sink = sink
+
+            def append(self, x):
+                self.sink.append(x)
+                super().append(x)
+        ctx.lua_env_stack = Rec(seen_env)
+        ctx.lua_frame_stack = Rec(seen_frame)
+        ctx.start_page("Tt")
+        out = ctx.expand("{{w1|a|k=v}}")
+        if not seen_env or not seen_frame:
+            return {"outcome": "ok", "error": "could not capture the module environment/frame: %r" % out}
+        lua = ctx.lua
+        walker = lua.eval(LUA_WALKER)
+        pyobjs = {}
+
+        def py_probe(obj):
+            # candidate attribute names of a Python object as lupa would expose them (the real attribute_filter decides later)
+            names = [a for a in dir(obj) if not a.startswith("_")]
+            if isinstance(obj, (tuple, list)):
+                names += list(range(len(obj)))
+            return names
+        nodes, edges, smt, ids = walker(lua.table_from([seen_env[-1], seen_frame[-1]]), py_probe)
+        N = [[int(v[1]), str(v[2]), str(v[3])] for v in nodes.values()]
+        E = [[int(v[1]), str(v[2]), str(v[3]), int(v[4])] for v in edges.values()]
+        # Python objects: describe them from the Python side
+        import lupa
+        py_desc = {}
+        for obj, i in ids.items():
+            if type(obj).__module__.startswith("lupa") or isinstance(obj, (str, int, float, bool)):
+                continue
+            py_desc[int(i)] = [type(obj).__module__ + "." + type(obj).__name__, bool(callable(obj)),
+                               isinstance(obj, (tuple, frozenset, bytes, str, int, float, bool, type(None))),
+                               getattr(obj, "__name__", "") or repr(obj)[:60]]
+        # call-result edges of the sandbox's require machinery, obtained by really calling the exposed functions
+        env = seen_env[-1]
+        call_edges = []
+        host_loaded = list(lua.eval("(function() local t = {} for k, v in pairs(package.loaded) do if type(k) == 'string' then t[#t + 1] = k end end return t end)()").values())
+        names = sorted(set(host_loaded) | {"io", "os", "package", "debug", "python", "_G", "coroutine", "string", "table", "math", "mw"})
+        caller = lua.eval("""function(env, ids, fname, nm, known_names)
+            local fn = env[fname]
+            if fn == nil then return nil end
+            local ok, r = pcall(fn, nm)
+            if not ok or r == nil then return nil end
+            local t = type(r)
+            if t ~= 'table' and t ~= 'function' and t ~= 'userdata' then return nil end
+            local host = ''
+            for k, v in pairs(package.loaded) do if v == r then host = 'package.loaded.' .. tostring(k) end end
+            if r == _G then host = '_G' end
+            return ids[fn] or 0, ids[r] or -1, host
+        end""")
+        for fname in ("require", "_cached_mod"):
+            for nm in names:
+                res = caller(env, ids, fname, nm, None)
+                if res is not None and res[0] is not None:
+                    call_edges.append([int(res[0]), fname + "(" + nm + ")", int(res[1]), str(res[2])])
+        return {"outcome": "ok", "nodes": N, "edges": E, "string_mt": int(smt), "py": py_desc, "roots": [1, 2],
+                "call_edges": call_edges}
+    finally:
+        close_ctx(ctx)
